@@ -262,3 +262,24 @@ func wfConsume(st *ConsumeState) bool {
 //@   loop 1 invariant state.segCnt != -1 && 0 < state.segCnt && len(state.content) == state.segCnt && old((&state.wnd)[1]) <= (&state.wnd)[1] && (&state.wnd)[1] <= state.segCnt && (&state.wnd)[0] == old((&state.wnd)[0]) && (&state.wnd)[2] == old((&state.wnd)[2])
 //@   loop 1 invariant forallIn((&state.wnd)[0], (&state.wnd)[1], func(j int) bool { return state.content[j] != nil })
 //@   loop 1 invariant !state.complete && state.err == nil && (old(state.segCnt) != -1 ==> state.segCnt == old(state.segCnt) && sameSlice(state.content, old(state.content)))
+
+// ---------------------------------------------------------------------------------------
+// ExpressR (C15: "segments that arrive only after retransmission ... within the retry budget"). The result closure of
+// expressRImpl is the sequential part of the retry machinery: a timeout with budget left re-expresses the SAME request
+// with the budget reduced by exactly one and reports nothing to the caller; the hand-off itself (a channel send to the
+// client goroutine) is outside the subset and represented by the ghost counter below (ExpressR is trusted: A-SEQ).
+// ---------------------------------------------------------------------------------------
+
+var ghostC15Reexpress int   // number of requests handed to the client's pipe
+var ghostC15LastRetries int // retry budget of the last request handed over
+
+//@ func (*Client).ExpressR
+//@   trusted
+//@   ensures ghostC15Reexpress == old(ghostC15Reexpress)+1 && ghostC15LastRetries == args.Retries
+
+// (the receiver c is captured by reference: the closure sees the cell, so `*c` is the client)
+//
+//@ func (*Client).expressRImpl$2
+//@   requires *c != nil
+//@   modifies args.Retries
+//@   ensures [retry-within-budget] res.Result == ndn.InterestResultTimeout && old(args.Retries) != 0 ==> ghostC15Reexpress == old(ghostC15Reexpress)+1 && ghostC15LastRetries == old(args.Retries)-1 && args.Retries == old(args.Retries)-1
